@@ -883,7 +883,15 @@ func (c *compiler) evalCallExpression(node *ast.CallExpression) (interface{}, er
 		}
 
 		if ff, ok := f.(*userFunction); ok {
-			return c.evalUserFunction(ff, node.Arguments)
+			res, err := c.evalUserFunction(ff, node.Arguments)
+			if err != nil {
+				return nil, err
+			}
+			if node.ChainCallee != nil {
+				// f(x).Member: the member is selected from the returned value
+				return c.evalMemberOf(res, node.ChainCallee)
+			}
+			return res, nil
 		}
 
 		rv = reflect.ValueOf(f)
